@@ -205,8 +205,9 @@ type StepObs struct {
 }
 
 type Result struct {
-	Spec      Spec      `json:"spec"`
-	InitStore []JEntry  `json:"init_store"`
+	Spec        Spec     `json:"spec"`
+	ClientValid int      `json:"client_valid"` // result class of ClientState.Validate on the initial client state
+	InitStore   []JEntry `json:"init_store"`
 	Obs       []StepObs `json:"obs"`
 }
 
@@ -480,6 +481,7 @@ func (e *env) start(spec Spec) *run {
 	ctx, _ := e.base.CacheContext()
 	r := &run{e: e, ctx: ctx, res: Result{Spec: Spec{ID: spec.ID, Client: spec.Client}}}
 	cs, cons := spec.Client.states()
+	r.res.ClientValid, _ = classify(func() error { return cs.Validate() })
 	k := e.app.XIBCKeeper.ClientKeeper
 	if err := k.CreateClient(e.ctxAt(r.ctx, spec.Client.CreateNow, 0), clientName, cs, cons); err != nil {
 		panic(err)
@@ -596,6 +598,7 @@ func main() {
 	steps := flag.Int("steps", 8, "max steps per history")
 	in := flag.String("in", "", "replay: file of specs (JSON lines) instead of generating")
 	out := flag.String("out", "/dev/stdout", "output file (JSON lines)")
+	withCorpus := flag.Bool("corpus", true, "run the fixed corpus histories before the generated ones")
 	flag.Parse()
 
 	a := app.Setup(false, nil)
@@ -622,6 +625,11 @@ func main() {
 			w.Emit(r.res)
 		})
 		return
+	}
+	if *withCorpus {
+		for _, r := range corpus(e) {
+			w.Emit(r)
+		}
 	}
 	root := hlib.NewRand(*seed)
 	for i := 0; i < *n; i++ {
